@@ -544,6 +544,35 @@ func runCodecs(o *out, r *rng, thorough bool) {
 			o.count("wrapper-roundtrip", name, true)
 		}
 	}
+	// well-formed zstd frames around truncated / empty / padded CBOR: the compressed decoder must give the verdict of
+	// the plain decoder on the same content, whatever was decoded before (the scratch buffer is pooled)
+	for _, v := range pgm {
+		pg := v.(*gpbft.PartialGMessage)
+		full, err := cb.Encode(pg)
+		if err != nil || len(full) > 1<<19 {
+			continue
+		}
+		var warm gpbft.PartialGMessage
+		if fr, err := zs.Encode(pg); err == nil {
+			_ = zs.Decode(fr, &warm) // leave this message in the pooled buffer
+		}
+		cuts := []int{0, 1, len(full) / 2, len(full) - 1}
+		for k := 0; k < 6; k++ {
+			cuts = append(cuts, r.intn(len(full)))
+		}
+		for _, cut := range cuts {
+			content := full[:cut]
+			var a, b gpbft.PartialGMessage
+			e1 := cb.Decode(content, &a)
+			e2 := zs.Decode(zstdFrame(content), &b)
+			if (e1 == nil) != (e2 == nil) {
+				o.violate("decoding truncated input returns an error (compressed and plain decoders agree on the same content)", "c14-zstd-truncated-verdict",
+					map[string]any{"content_len": cut, "full_len": len(full)}, fmt.Sprintf("plain: %v, zstd: %v", e1, e2))
+				break
+			}
+			o.Dist["zstd-truncated-content"]++
+		}
+	}
 	// a zstd bomb: 64 MiB of zeros compresses to a few KiB; decoding must fail within the 1 MiB bound
 	if zenc, ok := any(zs).(interface{ Encode(*gpbft.PartialGMessage) ([]byte, error) }); ok {
 		_ = zenc
